@@ -1,5 +1,6 @@
 /-
-Driver for C12: runs `Model.StoreWrite` (memWrite / sqlWrite with the facts of `Gen.StoreWrite` / cmdFront) on the
+Driver for C12: runs `Model.StoreWrite` (memWrite / sqlWrite — through `StoreKeys.sqlWriteK` with the lock keys the source
+computes, `Gen.StoreKeys` — with the facts of `Gen.StoreWrite` / cmdFront) on the
 harness' write histories, compares with the real datastores' outputs, and checks the property itself
 (all-or-nothing, options table, one change per effective item) on the implementation's own outputs.
 -/
